@@ -184,18 +184,27 @@ CHECKS = {
             "Tape alphabets containing the marker characters '^' or '_' are outside the model (typed markers) and are not generated. "
             "The model is of the repaired left-boundary branch (DESIGN section 8 row 11); on a tree without that repair the check reports "
             "the defect as a violation.", "7/C17"),
-    "C12": ("Coq theorems about Kleene state elimination on GNFAs with expression-AST labels + correspondence through the library's "
-            "own regex parser and the proved NFA comparator",
-            "Proved (unbounded in states, alphabet, word length) at the level of expression ASTs: ripping an inner state preserves the "
-            "GNFA's language; ripping all inner states in ANY order leaves an expression denoting the GNFA's language; the GNFA built "
-            "from a valid DFA/NFA (fresh initial/final state, parallel edges merged by union, empty-string edges) has the source's "
-            "language; hence the eliminated expression denotes exactly the source's language (C12_dfa_to_regex_partial / "
-            "C12_nfa_to_regex_partial). PARTIAL: the string assembly of to_regex (bracket rules, '?', '|') and the library's parser are "
-            "not modelled in Coq (full statement kept as C12_to_regex_statement); that half is checked on every run: the "
-            "implementation's string must be accepted by NFA.from_regex and the compiled NFA must equal the source's language for all "
-            "words (proved comparator), on generated DFAs/NFAs incl. empty-string bypass shapes; the AST model is cross-checked against "
-            "the source by a proved derivative matcher on all words up to length 5.",
-            "", "7/C12"),
+    "C12": ("Coq theorems about Kleene state elimination on GNFAs (expression-AST labels) and about a mirror model of the STRINGS "
+            "GNFA.from_dfa / from_nfa / to_regex build, connected to the Coq model of the library's own regex lexer/parser/compiler "
+            "(C10) + differential correspondence (literal string, rip sequence, library parser, proved NFA comparator)",
+            "Proved (unbounded in states, alphabet, word length, for EVERY iteration order of the candidate dict of "
+            "_find_min_connected_node): AST level - ripping an inner state preserves the GNFA's language; ripping all inner states in any "
+            "order leaves an expression for the GNFA's language; the GNFA of a valid DFA/NFA has the source's language. String level "
+            "(mirror model of _isbracket_req, the r1/r2/r3/r4 rules, (r1r2r3)?, the branch for an empty r1r2r3, label merging with '|' "
+            "and '?', the min-degree loop) - every label is the plain printing of a properly parenthesised annotated tree denoting what "
+            "the AST label denotes (established by from_dfa/from_nfa, kept by every rip step); the loop never fails and rips exactly the "
+            "inner states; the printing of such a tree is parsed by the model of the library's lexer + validator + shunting-yard + "
+            "evaluator back to the tree, and the compiler model returns a valid NFA for it. End to end (C12_dfa_to_regex, "
+            "C12_nfa_to_regex): for every valid DFA/NFA over ordinary characters and every schedule, to_regex returns a string that "
+            "NFA.from_regex accepts and compiles to a valid NFA with exactly the source's language (None only for the empty language). "
+            "Model tied to the code on every run: the implementation's string is compared LITERALLY with the string model run under the "
+            "recorded candidate orders, the sequence of ripped states with the model's, the string is parsed by the library's own "
+            "parser and its NFA compared with the source for all words (proved comparator); the AST model is cross-checked by a proved "
+            "derivative matcher on all words up to length 5.",
+            "Input symbols are single ordinary characters (not one of the reserved characters of the regex syntax, not whitespace), as "
+            "the library documents; no symbol is listed twice in a row of the NFA (true of every Python dict). The model follows the "
+            "repaired empty-r1r2r3 branch (DESIGN section 8 row 6); on a tree without that repair the check reports the defect.",
+            "7/C12"),
     "C14": ("Coq theorems about an executable specification model (filter over the dictionary-order enumeration) + proved exactness of "
             "the finiteness test + differential correspondence (exact word lists) against /repo via the extracted model",
             "Proved for all valid DFAs, all start words (None, empty, rejected, unreadable, longer than max_length - nothing is assumed "
